@@ -256,6 +256,9 @@ func recipes() map[string][]Recipe {
 	add("os.exit", post(ev("", "zero", "", `r := os.exit(0)`), "exit", "[0]"))
 	add("os.exit", post(ev("", "none", "", `r := os.exit()`), "exit", "[0]"))
 	add("os.exit", post(ev("", "code42", "", `r := os.exit(42)`), "exit", "[42]"))
+	add("os.exit", post(ev("", "error-value", "", `r := os.exit(errors.new("VERIFSENT_OUT exit message"))`), "exit", "[1]"))
+	add("os.exit", post(ev("", "errorf-value", "", `r := os.exit(errorf("VERIFSENT_OUT exit %d", 7))`), "exit", "[1]"))
+	add("os.exit", ev("", "in-try", "", `r := try(func() { return os.exit(errors.new("VERIFSENT_OUT exit in try")) }, func(e) { return "caught: " + string(e) })`))
 	add("os.getenv", want(ev("", "canary", "", `r := os.getenv(`+q(envCanary)+`)`), vEnvVal))
 	add("os.getenv", want(ev("", "virtual-only", "", `r := os.getenv("VERIFSENT_VONLY")`), "VERIFSENT_VIRT_only"))
 	add("os.getpid", want(ev("", "", "", `r := os.getpid()`), fmt.Sprint(vPid)))
@@ -293,6 +296,9 @@ func recipes() map[string][]Recipe {
 	add("os.read_dir", has(ev("", "rel", "", `r := os.read_dir(`+q(relDir)+`).map(func(e) { return e.name })`), "VERIFSENT_virtonly.txt", "VERIFSENT_a.txt"))
 	add("os.read_dir", has(ev("", "abs", "", `r := os.read_dir(`+q(abs(relDir))+`)`), "VERIFSENT_virtonly.txt"))
 	add("os.read_dir", has(ev("", "cwd", "", `r := os.read_dir()`), relDir))
+	add("os.read_dir", has(ev("", "entry-info", "", `r := os.read_dir(`+q(relDir)+`).map(func(e) { return [e.name, e.info().size, e.info().name] })`), fmt.Sprintf(`["VERIFSENT_a.txt", %d, "VERIFSENT_a.txt"]`, len(virtA)), "VERIFSENT_virtonly.txt"))
+	add("os.read_dir", has(ev("", "entry-json", "", `r := json.marshal(os.read_dir(`+q(relDir)+`))`), "VERIFSENT_virtonly.txt"))
+	add("os.read_dir", has(ev("", "entry-info-abs", "", `r := os.read_dir(`+q(abs(relDir))+`).map(func(e) { return [e.name, e.info().size, e.is_dir, e.type] })`), fmt.Sprintf(`["VERIFSENT_a.txt", %d, false`, len(virtA))))
 	add("os.read_file", want(ev("", "rel", "", `r := string(os.read_file(`+q(relA)+`))`), virtA))
 	add("os.read_file", want(ev("", "abs", "", `r := os.read_file(`+q(abs(relB))+`)`), virtB))
 	add("os.remove", post(ev("", "rel", "", `r := os.remove(`+q(relB)+`)`), "-"+vpath(relB), "*"))
